@@ -444,10 +444,18 @@ def raise_discipline(ctx):
     # after the try: `if err: raise err`
     rs = [n for n in u.own_nodes() if isinstance(n, ast.Raise) and not in_handler_of(n) and is_name(n.exc, errvar)]
     ok = len(rs) == 1
+    ctx.ob(ok, u, 'the translated error is raised outside the handler (no implicit chaining): %s' % [norm(r) for r in rs])
     if ok:
         g = [a for a in ancestors(rs[0]) if isinstance(a, ast.If)]
-        ok = bool(g) and is_name(g[0].test, errvar)
-    ctx.ob(ok, u, 'the translated error is raised outside the handler (no implicit chaining): %s' % [norm(r) for r in rs])
+        t = g[0].test if g else None
+        # the pending-error test must not depend on the truth value of a user-defined exception object
+        # (an exception class with __len__ / __bool__ may be falsy): `err is not None`, not `if err:`
+        identity = isinstance(t, ast.Compare) and is_name(t.left, errvar) and isinstance(t.ops[0], ast.IsNot) \
+            and isinstance(t.comparators[0], ast.Constant) and t.comparators[0].value is None
+        ctx.ob(identity, u, 'a pending error is detected by identity (`%s is not None`), not by truth value: %s'
+               % (errvar, norm(t) if t is not None else None),
+               '' if identity else 'an exception whose class defines __len__/__bool__ and is falsy is not re-raised: glom() falls '
+               'through to `return ret` and raises UnboundLocalError instead of the original class', node=g[0] if g else rs[0])
     # err initialised to None before the try
     inits = [n for n in u.node.body if isinstance(n, ast.Assign) and is_name(n.targets[0], errvar)]
     ctx.ob(len(inits) == 1 and isinstance(inits[0].value, ast.Constant) and inits[0].value.value is None, u,
